@@ -159,7 +159,7 @@ class Prior():
                 param_dict[key] = phys_points[..., i]
                 i = i + 1
             elif isinstance(dist, numbers.Number):
-                param_dict[key] = np.ones(phys_points[..., 0].shape) * dist
+                param_dict[key] = np.ones(phys_points.shape[:-1]) * dist
 
         for key, dist in zip(self.keys, self.dists):
             if isinstance(dist, str):
